@@ -34,9 +34,19 @@ type sop struct {
 	E    int    `json:"e,omitempty"`   // cancel / release: element id (= index among accepted adds)
 	FC   bool   `json:"fc,omitempty"`
 	FI   bool   `json:"fi,omitempty"`
+	Far  int    `json:"far,omitempty"` // add: extreme instant (farTable rank; > 0 never due, < 0 long past) instead of Off
+	Rep  int    `json:"rep,omitempty"` // add: representation of the instant (extreme.go: rep)
 }
 
 const t0 = 1000000
+
+// abstract instant of an add (the scenario clock stands at t0): order-preserving
+func (o sop) instant() uint64 {
+	if o.Far != 0 {
+		return uint64(t0 + o.Far*10000)
+	}
+	return uint64(t0 + o.Off)
+}
 
 func (o sop) coq() string {
 	switch o.Kind {
@@ -45,7 +55,7 @@ func (o sop) coq() string {
 		if o.Key >= 0 {
 			k = fmt.Sprintf("(Some %d)", o.Key)
 		}
-		return fmt.Sprintf("SAdd %s %s %s", vx.N(uint64(t0+o.Off)), k, vx.Bool(o.B))
+		return fmt.Sprintf("SAdd %s %s %s", vx.N(o.instant()), k, vx.Bool(o.B))
 	case "cancel":
 		return fmt.Sprintf("SCancel %d", o.E)
 	case "tcancel":
@@ -151,9 +161,9 @@ func runScript(nw, maxsz int, ops []sop, win time.Duration) []obsT {
 			}
 			var at time.Time
 			if op.Off < 0 {
-				at = base.Add(time.Duration(op.Off) * time.Second)
+				at = mkTime(base, time.Duration(op.Off)*time.Second, op.Far, op.Rep)
 			} else {
-				at = base.Add(time.Duration(op.Off) * time.Hour)
+				at = mkTime(base, time.Duration(op.Off)*time.Hour, op.Far, op.Rep)
 			}
 			var task *timed.ScheduledTask
 			hung = !guard(func() {
@@ -240,6 +250,7 @@ func directedScripts() []script {
 	tc := func(k int) sop { return sop{Kind: "tcancel", Key: k} }
 	rl := func(e int) sop { return sop{Kind: "release", E: e} }
 	sh := func(fc, fi bool) sop { return sop{Kind: "shutdown", FC: fc, FI: fi} }
+	far := func(key, rank, rp int, b bool) sop { return sop{Kind: "add", Key: key, Far: rank, Rep: rp, B: b} }
 	return []script{
 		// D18a: re-schedule while the previous callback of the identifier runs; then Cancel; then a third task
 		{1, 0, []sop{add(1, -1, true), add(1, 2, false), rl(0), tc(1), add(1, 3, false), add(1, 4, false), tc(1), tc(1), sh(false, true)}, "D18a"},
@@ -258,6 +269,13 @@ func directedScripts() []script {
 		{1, 0, []sop{add(0, -1, true), add(1, -1, false), add(2, 1, false), sh(true, true), rl(0), tc(1)}, "shutdown-both"},
 		// direct Cancel() on the returned task bypasses the identifier map
 		{1, 0, []sop{add(0, 2, false), {Kind: "cancel", E: 0}, tc(0), add(0, -1, false), tc(0)}, "direct-cancel"},
+		// extreme instants: while the only worker is busy, elements beyond 2262 / before 1678 / at the zero time and due
+		// elements in several representations are queued; the worker must take them in the order of the instants
+		{1, 0, []sop{add(-1, -1, true), far(-1, 3, 0, false), far(0, 5, 2, false), add(1, -1, false), {Kind: "add", Key: 2, Off: -2, Rep: 1}, far(-1, -3, 3, true),
+			{Kind: "add", Key: -1, Off: -3, B: true, Rep: 4}, far(-1, -2, 0, true), rl(0), rl(5), rl(7), rl(6), tc(0), sh(false, true)}, "extreme-times"},
+		{2, 2, []sop{add(-1, -1, true), add(-1, -1, true), far(0, 6, 1, false), far(1, 2, 5, false), add(2, -1, false), rl(0), tc(0), tc(1), tc(2), rl(1), sh(false, true)}, "extreme-maxsize"},
+		// a burst seen by the lockstep: two workers, both callbacks block, both must have started
+		{2, 0, []sop{add(-1, -1, true), add(-1, -2, true), add(-1, -1, false), rl(1), rl(0), sh(false, false)}, "two-workers-blocking"},
 	}
 }
 
@@ -277,6 +295,17 @@ func genScript(r *vx.Rng, maxLen int) script {
 				o.B = r.Chance(1, 2)
 			} else {
 				o.Off = 1 + r.Intn(7)
+			}
+			if r.Chance(1, 7) { // extreme instant instead: never due / long past
+				if r.Chance(3, 5) {
+					o.Far, o.B = vx.Pick(r, farFuture), false
+				} else {
+					o.Far = vx.Pick(r, farPast)
+					o.Off, o.B = -1, r.Chance(1, 2)
+				}
+			}
+			if r.Chance(1, 2) {
+				o.Rep = r.Intn(nReps)
 			}
 			if !shut {
 				if o.B {
@@ -441,6 +470,16 @@ type planOp struct {
 	E       int    `json:"e,omitempty"`
 	FC      bool   `json:"fc,omitempty"`
 	FI      bool   `json:"fi,omitempty"`
+	Far     int    `json:"far,omitempty"` // add: extreme instant (farTable rank) instead of the slot
+	Rep     int    `json:"rep,omitempty"` // add: representation of the instant
+}
+
+// abstract stamp of an extreme instant (order-preserving: before / after every stamp of a run)
+func farStamp(rank int) int64 {
+	if rank > 0 {
+		return stampBase + 1_000_000_000_000_000 + int64(rank)
+	}
+	return int64(1000 * (10 + rank))
 }
 
 const stampBase = 10_000_000 // microseconds; keeps "past" due times positive
@@ -453,7 +492,17 @@ func genPlan(r *vx.Rng, gridMs int) plan {
 	if r.Chance(3, 5) {
 		shutAt = 2 + r.Intn(p.Slots-2)
 	}
+	// never-due elements: fewer than pollers (each can hold one poller for the whole run); cancelled before the Shutdown
+	nFar := 0
+	if p.NW >= 2 && r.Chance(1, 2) {
+		nFar = 1 + r.Intn(p.NW-1)
+	}
 	for s := 0; s < p.Slots; s++ {
+		if nFar > 0 && (shutAt < 0 || s < shutAt) && r.Chance(1, 3) {
+			nFar--
+			p.Ops = append(p.Ops, planOp{Slot: s, Kind: "add", Far: vx.Pick(r, farFuture), Rep: r.Intn(nReps)})
+			els = append(els, el{s})
+		}
 		if s == shutAt {
 			p.Ops = append(p.Ops, planOp{Slot: s, Kind: "shutdown", FC: r.Chance(1, 4), FI: r.Chance(1, 3)})
 		}
@@ -463,7 +512,14 @@ func genPlan(r *vx.Rng, gridMs int) plan {
 				p.Ops = append(p.Ops, planOp{Slot: s, Kind: "cancel", E: r.Intn(len(els))})
 			} else {
 				d := s + r.Intn(6) - 1 // -1: already due
-				p.Ops = append(p.Ops, planOp{Slot: s, Kind: "add", DueSlot: d})
+				o := planOp{Slot: s, Kind: "add", DueSlot: d}
+				if r.Chance(1, 2) {
+					o.Rep = r.Intn(nReps)
+				}
+				if r.Chance(1, 10) {
+					o.Far = vx.Pick(r, farPast) // long past: due at once
+				}
+				p.Ops = append(p.Ops, o)
 				if shutAt < 0 || s < shutAt {
 					els = append(els, el{d})
 				}
@@ -513,7 +569,19 @@ func runPlan(p plan) (hist []hev, notes []string) {
 	var maxDue int64
 	isFC, shutdown := false, false
 	shutRet := make(chan struct{})
+	var farIDs []int
+	cancelElem := func(e int) {
+		if p.Executor {
+			xelems[e].Cancel()
+		} else {
+			qelems[e].Cancel()
+		}
+		hist = append(hist, hev{Kind: "cancel", E: e, At: stamp()})
+	}
 	doShutdown := func(fc, fi bool) {
+		for _, e := range farIDs { // the never-due elements would keep their pollers for ever
+			cancelElem(e)
+		}
 		var fl []timed.ShutdownFlag
 		if fc {
 			fl = append(fl, timed.CancelPendingElements)
@@ -548,34 +616,40 @@ func runPlan(p plan) (hist []hev, notes []string) {
 			id := nacc
 			at := stamp()
 			var ok bool
+			when := mkTime(start, due, op.Far, op.Rep)
+			dueStamp := stampBase + due.Microseconds()
+			if op.Far != 0 {
+				dueStamp = farStamp(op.Far)
+			}
 			if p.Executor {
-				t := ex.ExecuteAt(func() { record(id) }, start.Add(due))
+				t := ex.ExecuteAt(func() { record(id) }, when)
 				if ok = t != nil; ok {
 					xelems = append(xelems, t)
 				}
 			} else {
-				t := q.Add(id+1, start.Add(due))
+				t := q.Add(id+1, when)
 				if ok = t != nil; ok {
 					qelems = append(qelems, t)
 				}
 			}
 			if ok {
-				hist = append(hist, hev{Kind: "add", E: id, Due: stampBase + due.Microseconds(), At: at})
+				hist = append(hist, hev{Kind: "add", E: id, Due: dueStamp, At: at})
 				nacc++
-				if stampBase+due.Microseconds() > maxDue {
-					maxDue = stampBase + due.Microseconds()
+				if op.Far > 0 {
+					farIDs = append(farIDs, id)
+				} else if op.Far < 0 {
+					if at > maxDue { // long past: due at the moment of the Add
+						maxDue = at
+					}
+				} else if dueStamp > maxDue {
+					maxDue = dueStamp
 				}
 			} else if !shutdown {
 				notes = append(notes, "Add refused before any Shutdown")
 			}
 		case "cancel":
 			if op.E < nacc {
-				if p.Executor {
-					xelems[op.E].Cancel()
-				} else {
-					qelems[op.E].Cancel()
-				}
-				hist = append(hist, hev{Kind: "cancel", E: op.E, At: stamp()})
+				cancelElem(op.E)
 			}
 		case "shutdown":
 			if !shutdown {
@@ -732,6 +806,8 @@ func main() {
 	winMs := fs.Int("win", 30, "")
 	hookTrials := fs.Int("hook", 600, "")
 	winReps := fs.Int("windows", 6, "")
+	burstReps := fs.Int("burst", 3, "")
+	nPreload := fs.Int("preload", 60, "")
 	par := fs.Int("par", 32, "")
 	seed := fs.Uint64("seed", 1, "")
 	out := fs.String("out", "cases.v", "")
@@ -819,6 +895,14 @@ func main() {
 	// windows: worker held at every yield point x client operations completed meanwhile
 	if *winReps > 0 {
 		runWindows(cf, st, *winReps, *par)
+	}
+	// bursts: several parked pollers, back-to-back Adds, the woken consumer does not come back
+	if *burstReps > 0 {
+		runBursts(cf, st, *burstReps, *par)
+	}
+	// preload: extreme instants / representations queued together with ordinary elements before polling starts
+	if *nPreload > 0 {
+		runPreloads(cf, st, r.Fork(), *nPreload, *par)
 	}
 	if err := cf.Write(*out); err != nil {
 		vx.Die("%v", err)
